@@ -15,8 +15,8 @@ from vf.util import closure_has_zero, fresh, graph_of, key_grid, tally_ops, tall
 
 PROPERTY = "C04"
 WORKERS = {"quick": 16, "thorough": 16}
-CASES = {"quick": 900, "thorough": 40000}
-TIME = {"quick": 50, "thorough": 1100}
+CASES = {"quick": 900, "thorough": 5400}
+TIME = {"quick": 50, "thorough": 240}
 RULE = (
     "random programs from G; for the output and one intermediate, with array.optimize-graph on and off: "
     "__dask_keys__() must equal the (name,*idx) grid over numblocks with name == x.name; __dask_graph__() must define every "
